@@ -203,12 +203,19 @@ def get_rc_shape(rep):
     rets = returns_of(fi.node)
     rc = norm(rets[0].value) if len(rets) == 1 and rets[0].value is not None else None
     src = origin(defs, rets[0].value) if rc else None
-    rep.ob("O2.4", "SRC", fi, None if rc is None else (isinstance(src, ast.Call) and dotted(src.func) in ("nx.Graph", "Graph") and not src.args),
-           rets[0] if rets else "return", "the centre is a fresh graph (the ITS is not modified)")
+    fresh = None
+    if rc is not None:
+        if isinstance(src, ast.Call) and dotted(src.func) in ("nx.Graph", "Graph") and not src.args:
+            fresh = True
+        elif isinstance(src, ast.Name) and src.id in P:
+            fresh = False   # the input graph itself is handed back
+        # anything else (an attribute of a helper object, a call the rule does not know): not decided
+    rep.ob("O2.4", "SRC", fi, fresh, rets[0] if rets else "return", "the centre is a fresh graph (the ITS is not modified)")
     for callee, oid in (("_add_changed_bonds", "O2.2"), ("_add_hh_bonds", "O2.4")):
         cs = [c for c in walk_local(fi.node) if isinstance(c, ast.Call) and call_name(c) == callee]
         if not cs:
-            rep.ob(oid, "LOOP", fi, False, callee, f"get_rc calls {callee}")
+            # the step may have moved (method of a helper object, merged into the caller): the rule cannot see it any more
+            rep.ob(oid, "LOOP", fi, None, callee, f"get_rc calls {callee}")
             continue
         c = cs[0]
         gs = guards_of(pm, c, fi.node)
@@ -411,8 +418,14 @@ def extract_k(rep):
     e = ex[0]
     nodes_src = origin(defs, e.args[1]) if len(e.args) > 1 else None
     rep.ob("O2.5", "SRC", fi, bool(e.args) and norm(e.args[0]) == P[0], e, "the context is cut out of the ITS (not of the centre)", node=e)
-    ok = nodes_src is not None and isinstance(defs.get(_base_name_id(nodes_src), [None])[0].value if defs.get(_base_name_id(nodes_src)) else None, ast.Call) \
-        and defs[_base_name_id(nodes_src)][0].value is c
+    # the atom list handed to extract_subgraph is the expansion's result: the call itself (possibly wrapped in list()/set()/sorted()) or a local bound to it
+    def is_expansion(e_):
+        while isinstance(e_, ast.Call) and isinstance(e_.func, ast.Name) and e_.func.id in ("list", "set", "sorted", "tuple", "frozenset") and len(e_.args) == 1:
+            e_ = e_.args[0]
+        if e_ is c:
+            return True
+        return isinstance(e_, ast.Name) and any(d_.value is c for d_ in defs.get(e_.id, []))
+    ok = nodes_src is not None and is_expansion(nodes_src)
     rep.ob("O2.5", "SRC", fi, ok, nodes_src if nodes_src is not None else e, "the context contains exactly the expanded atom set", node=e)
     sub = rep.f(RAD, "RadiusExpand.extract_subgraph")
     rets = returns_of(sub.node)
